@@ -130,8 +130,8 @@ CLAIMED = {
             'simple-symbol alphabet, leading digit, reserved word) - truth table over its predicate calls - and the alphabet it accepts unquoted is a subset of the standard\'s; '
             '(2) whole-program string provenance: text read from a raw-name source (symbol names, sort-symbol names, assertion names) reaches std::cout, a file stream or the '
             'non-error response printer - directly, through returned strings or through caller-supplied streams - only through protectName; (3) functions echoing parser text '
-            'to std::cout distinguish quoted-symbol tokens. Number/abstract-value formats, let-abbreviation names, the `as` disambiguation and read-back equality itself are value-level and not decided.',
-            'static analysis: truth-table interpretation of the quoting predicate; interprocedural flow-insensitive string-provenance (taint) analysis with function summaries over the mini-AST', ''),
+            'to std::cout distinguish quoted-symbol tokens; (4) Logic::dumpWithLets prints a node only after every child it names by definition has one. Number/abstract-value formats, the `as` disambiguation and read-back equality itself are value-level and not decided.',
+            'static analysis: truth-table interpretation of the quoting predicate; interprocedural flow-insensitive string-provenance (taint) analysis with function summaries over the mini-AST; path walk of the let-dump child scan', ''),
     'C07': ('other',
             'Static, protocol clauses of the deletion-based minimisation only (irreducibility itself is a statement about satisfiability of subsets and is not decided): on every '
             'path through one iteration of UnsatCoreBuilder::Minimize::performNaive the trial check runs inside a balanced push/pop bracket in which the candidate is not asserted; '
